@@ -240,35 +240,58 @@ theorem bmfAccept_sound (S : Sys) (tol : Rat) (val : Nat → Rat) (h : bmfAccept
 
 /-! ### termination (fuel bound) -/
 
-/-
-Full-strength statement (DESIGN §8 `maxmin_terminates`): for every well-formed system, fuel = #variables + 1
-(≤ #variables + #constraints) suffices.  Proved below for systems whose active constraints are all summing (SHARED);
-missing for FATPIPE: "a positive usage_ of a light FATPIPE constraint is attained by an unfixed element" (the invariant
-only has `usage_ ≥ w/penalty` for the unfixed consumers), needed to show that a saturated FATPIPE constraint always
-contributes a variable to fix.
--/
-
-/-- **`maxmin_terminates`, summing constraints, any variable bounds.**  `nv` bounds the variable indices; measure: number
-of unfixed variables among 0…nv-1, which strictly decreases at each pass of the do-while that starts with a non-empty
-light table (`round_progress`); so the model never runs out of fuel when `fuel ≥ nv + 1`. -/
-theorem maxmin_terminates_partial (S : Sys) (hwf : WF S) (hsh : ∀ c ∈ S.active, (S.cnst c).fatpipe = false) (nv : Nat)
+/-- **`maxmin_terminates` (DESIGN §8), full strength: every well-formed system — SHARED and FATPIPE constraints, any
+variable bounds.**  `nv` bounds the variable indices; measure: number of unfixed variables among 0…nv-1, which strictly
+decreases at each pass of the do-while that starts with a non-empty light table (`round_progress`; for a saturated
+FATPIPE constraint the variable to fix is given by `InvA`: its usage_ is attained by an unfixed consumer); so the model
+never runs out of fuel when `fuel ≥ nv + 1`. -/
+theorem maxmin_terminates (S : Sys) (hwf : WF S) (nv : Nat)
     (hnv : ∀ c ∈ S.active, ∀ e ∈ (S.cnst c).elems, e.1 < nv) (val0 : Nat → Rat) (fuel : Nat) (hfuel : nv + 1 ≤ fuel) :
     (maxminSolve S 0 fuel val0).isSome = true :=
-  maxmin_terminates_shared S hwf hsh nv hnv val0 fuel hfuel
+  maxmin_terminates_wf S hwf nv hnv val0 fuel hfuel
 
 /-- with `nc` constraints: `#variables + #constraints + 1` is enough a fortiori -/
-theorem maxmin_terminates_partial_nc (S : Sys) (hwf : WF S) (hsh : ∀ c ∈ S.active, (S.cnst c).fatpipe = false) (nv nc : Nat)
+theorem maxmin_terminates_nc (S : Sys) (hwf : WF S) (nv nc : Nat)
     (hnv : ∀ c ∈ S.active, ∀ e ∈ (S.cnst c).elems, e.1 < nv) (val0 : Nat → Rat) :
     (maxminSolve S 0 (nv + nc + 1) val0).isSome = true :=
-  maxmin_terminates_shared S hwf hsh nv hnv val0 _ (by omega)
+  maxmin_terminates_wf S hwf nv hnv val0 _ (by omega)
 
-/-- together with `maxmin_feasible`: on SHARED-only systems the solver returns a feasible allocation -/
-theorem maxmin_total_feasible_partial (S : Sys) (hwf : WF S) (hsh : ∀ c ∈ S.active, (S.cnst c).fatpipe = false) (nv : Nat)
+/-- **total correctness of `maxmin_solve` for C15**: on every well-formed system the solver returns, and what it
+returns is feasible (all three clauses of `maxmin_feasible`) -/
+theorem maxmin_total_feasible (S : Sys) (hwf : WF S) (nv : Nat)
     (hnv : ∀ c ∈ S.active, ∀ e ∈ (S.cnst c).elems, e.1 < nv) (val0 : Nat → Rat) :
-    ∃ st, maxminSolve S 0 (nv + 1) val0 = some st ∧ ∀ c ∈ S.active, load S st.value c ≤ (S.cnst c).bound := by
-  have h := maxmin_terminates_shared S hwf hsh nv hnv val0 (nv + 1) (le_refl _)
+    ∃ st, maxminSolve S 0 (nv + 1) val0 = some st ∧
+      (∀ c ∈ S.active, load S st.value c ≤ (S.cnst c).bound) ∧
+      (∀ c ∈ S.active, ∀ e ∈ (S.cnst c).elems,
+        0 ≤ st.value e.1 ∧ (0 < (S.var e.1).bound → st.value e.1 ≤ (S.var e.1).bound)) ∧
+      (∀ v, (∀ c ∈ S.active, ∀ e ∈ (S.cnst c).elems, e.1 ≠ v) → st.value v = val0 v) := by
+  have h := maxmin_terminates_wf S hwf nv hnv val0 (nv + 1) (le_refl _)
   cases hs : maxminSolve S 0 (nv + 1) val0 with
   | none => rw [hs] at h; simp at h
-  | some st => exact ⟨st, rfl, (maxmin_feasible S hwf val0 (nv + 1) st hs).1⟩
+  | some st => exact ⟨st, rfl, maxmin_feasible S hwf val0 (nv + 1) st hs⟩
+
+/-- non-vacuity: `exSys` (SHARED + FATPIPE constraint, a bounded variable) meets the hypotheses with `nv = 3` -/
+example : (maxminSolve exSys 0 4 (fun _ => 0)).isSome = true :=
+  maxmin_terminates exSys exSys_wf 3
+    (by intro c hc e he; simp [exSys] at hc
+        rcases hc with rfl | rfl <;> simp [exSys] at he <;> rcases he with rfl | rfl | rfl <;> simp)
+    _ 4 (by omega)
+
+/-- the first-pass statements (summing constraints only) are corollaries -/
+theorem maxmin_terminates_partial (S : Sys) (hwf : WF S) (_hsh : ∀ c ∈ S.active, (S.cnst c).fatpipe = false) (nv : Nat)
+    (hnv : ∀ c ∈ S.active, ∀ e ∈ (S.cnst c).elems, e.1 < nv) (val0 : Nat → Rat) (fuel : Nat) (hfuel : nv + 1 ≤ fuel) :
+    (maxminSolve S 0 fuel val0).isSome = true :=
+  maxmin_terminates S hwf nv hnv val0 fuel hfuel
+
+theorem maxmin_terminates_partial_nc (S : Sys) (hwf : WF S) (_hsh : ∀ c ∈ S.active, (S.cnst c).fatpipe = false) (nv nc : Nat)
+    (hnv : ∀ c ∈ S.active, ∀ e ∈ (S.cnst c).elems, e.1 < nv) (val0 : Nat → Rat) :
+    (maxminSolve S 0 (nv + nc + 1) val0).isSome = true :=
+  maxmin_terminates_nc S hwf nv nc hnv val0
+
+theorem maxmin_total_feasible_partial (S : Sys) (hwf : WF S) (_hsh : ∀ c ∈ S.active, (S.cnst c).fatpipe = false) (nv : Nat)
+    (hnv : ∀ c ∈ S.active, ∀ e ∈ (S.cnst c).elems, e.1 < nv) (val0 : Nat → Rat) :
+    ∃ st, maxminSolve S 0 (nv + 1) val0 = some st ∧ ∀ c ∈ S.active, load S st.value c ≤ (S.cnst c).bound := by
+  obtain ⟨st, h1, h2, _⟩ := maxmin_total_feasible S hwf nv hnv val0
+  exact ⟨st, h1, h2⟩
 
 end SgVerif.C15
